@@ -627,7 +627,7 @@ theorem C18_sites_justified : C18_sites_justified_statement := by
     unfold Site.ok at hok
     intro h
     rw [h, Bool.and_eq_true] at hok
-    exact absurd hok.1 (by decide)
+    simp [Just.fits] at hok
   cases hj : s.just with
   | unreviewed => exact absurd hj hne
   | findDistinctKeys => exact C18_find_distinct_keys_perm
